@@ -28,7 +28,7 @@ ASSUMPTIONS = [
 ]
 FUZZ_RUNS = 40000   # thorough tier: libFuzzer runs per campaign of the coverage-guided stage (vf/fuzz.py)
 BUDGET = {
-    "quick": {"examples": 1500, "workers": 8, "time_cap": 70},
+    "quick": {"examples": 2200, "workers": 8, "time_cap": 70},
     "thorough": {"examples": 10000, "workers": 14, "time_cap": 900},
 }
 GRID_DESC = {
